@@ -288,4 +288,51 @@ theorem dt_cmp_general (a b : NaiveDT) (ha : NDTInv a) (hb : NDTInv b) :
   repeat' split
   all_goals omega
 
+/-! ### the cursor after `k` successful calls (`Iterator::nth`, `advance_by`) -/
+
+theorem stateAfter_spec (next : Date → Res (Option (Date × Date))) (s : Int)
+    (hs : s = 1 ∨ s = 7 ∨ s = -1 ∨ s = -7) (hst : StepsBy next s) :
+    ∀ (k : Nat) (v : Date), DateInv v →
+      ∃ r, stateAfter next k v = .ok r ∧ IsDayShift v (k * s) r := by
+  obtain ⟨c1, c2, _⟩ := dn_consts
+  intro k
+  induction k with
+  | zero =>
+    intro v hv
+    have hb := dn_bounds v hv
+    refine ⟨some v, rfl, ?_, ?_⟩
+    · rw [c1, c2]
+      constructor
+      · intro h; cases h
+      · intro h; exfalso; simp at h; omega
+    · intro d hd; rw [← Option.some.inj hd]; exact ⟨hv, by simp⟩
+  | succ k ih =>
+    intro v hv
+    have hb := dn_bounds v hv
+    obtain ⟨r0, hr0, hn⟩ := hst v hv
+    cases r0 with
+    | none =>
+      have hout := hr0.1.mp rfl
+      rw [c1, c2] at hout
+      refine ⟨none, ?_, ?_, ?_⟩
+      · unfold stateAfter; rw [hn]; rfl
+      · rw [c1, c2]
+        constructor
+        · intro _
+          rcases hs with rfl | rfl | rfl | rfl <;> push_cast <;> omega
+        · intro _; rfl
+      · intro d hd; cases hd
+    | some n =>
+      obtain ⟨hin, hdn⟩ := hr0.2 n rfl
+      obtain ⟨r, h0, h1, h2⟩ := ih n hin
+      refine ⟨r, ?_, ?_, ?_⟩
+      · unfold stateAfter; rw [hn]; dsimp only [Option.map]; exact h0
+      · rw [h1, hdn]
+        rcases hs with rfl | rfl | rfl | rfl <;> push_cast <;> constructor <;> intro h <;> omega
+      · intro d hd
+        obtain ⟨q1, q2⟩ := h2 d hd
+        refine ⟨q1, ?_⟩
+        rw [q2, hdn]
+        rcases hs with rfl | rfl | rfl | rfl <;> push_cast <;> omega
+
 end Chrono.Proofs.ArithExt
